@@ -205,6 +205,10 @@ func (s *sqlStore) add(serviceID string, presentation vc.VerifiablePresentation,
 
 // storePresentation creates a presentationRecord from a VerifiablePresentation and stores it, with its credentials, in the database.
 func storePresentation(tx *gorm.DB, serviceID string, timestamp int, presentation vc.VerifiablePresentation) (*presentationRecord, error) {
+	if presentation.Format() != vc.JWTPresentationProofFormat {
+		// a presentation in another format (from a Discovery Server) has no JWT to take the expiration from
+		return nil, errUnsupportedPresentationFormat
+	}
 	credentialSubjectID, err := credential.PresentationSigner(presentation)
 	if err != nil {
 		return nil, err
